@@ -272,6 +272,10 @@ func runC20(r *run) {
 			s = []string{"", "0", "-0", "+0", "-", "+", ".", ".s", "-.s", "0.0s", "1d", "1.5d", "3d7s",
 				"9223372036854775808ns9223372036854775808ns", "9223372036854775808ns", "-9223372036854775808ns", "9223372036854775807ns1ns", "2562047h47m16.854775808s"}[g.intn(18)]
 		}
+		if pinned := []string{"00", "0.0", "0.", ".0", "-00", "+00", "1h0", "1m0.0", "0h0", "0.00h000", "000", "0s0", "1.5h0.", "-.0", "0e0", "1h00m0", "0 ", " 0",
+			"1h+0", "0x0", "1", "30", "1h30", "0.5", "1m.", "00s", "0.s", "0.0h", "-0h", "1h0s", "1h 0s"}; i < len(pinned) {
+			s = pinned[i] // bare numbers: only the single text "0" (with a sign or not) needs no unit
+		}
 		d1, e1, pp := c20Parse(s)
 		if pp != "" {
 			r.emit("C20 parse "+hxs(s), "panic")
